@@ -49,14 +49,14 @@ type TripleE struct {
 }
 
 type Universe struct {
-	Instants  []string  `json:"instants"`
+	Instants  []string   `json:"instants"`
 	Spellings []Spelling `json:"spellings"`
-	Nodes     []NodeE   `json:"nodes"`
-	Preds     []PredE   `json:"preds"`
-	CPreds    []CPredE  `json:"cpreds"`
-	Objs      []ObjE    `json:"objs"`
-	Triples   []TripleE `json:"triples"`
-	Graphs    []string  `json:"graphs"`
+	Nodes     []NodeE    `json:"nodes"`
+	Preds     []PredE    `json:"preds"`
+	CPreds    []CPredE   `json:"cpreds"`
+	Objs      []ObjE     `json:"objs"`
+	Triples   []TripleE  `json:"triples"`
+	Graphs    []string   `json:"graphs"`
 
 	times   []time.Time // by rank-1
 	nodes   []*node.Node
@@ -64,6 +64,7 @@ type Universe struct {
 	canon   []int                  // abstract pred -> first concrete index (1-based)
 	objs    []*triple.Object
 	triples []*triple.Triple
+	alts    []*triple.Triple // the same triples, predicate and predicate-valued object in another spelling of their anchor (when there is one)
 }
 
 func Load(path string) (*Universe, error) {
@@ -140,6 +141,26 @@ func Load(path string) (*Universe, error) {
 			return nil, err
 		}
 		u.triples = append(u.triples, tt)
+		// the alternative spelling: the LAST spelling of the predicate's (and of a predicate object's) instant that
+		// is not the one used above
+		other := func(abs, used int) *predicate.Predicate {
+			r := u.cpreds[used-1]
+			for i, c := range u.CPreds {
+				if c.Abs == abs && i+1 != used {
+					r = u.cpreds[i]
+				}
+			}
+			return r
+		}
+		ao := u.objs[t.O-1]
+		if oe := u.Objs[t.O-1]; oe.Kind == "pred" {
+			ao = triple.NewPredicateObject(other(oe.Ref, u.canon[oe.Ref]))
+		}
+		at, err := triple.New(u.nodes[t.S-1], other(t.P, cp), ao)
+		if err != nil {
+			return nil, err
+		}
+		u.alts = append(u.alts, at)
 	}
 	return u, nil
 }
@@ -175,8 +196,11 @@ func (u *Universe) CPred(i int) *predicate.Predicate  { return u.cpreds[i-1] }
 func (u *Universe) Pred(abs int) *predicate.Predicate { return u.cpreds[u.canon[abs]-1] }
 func (u *Universe) Obj(i int) *triple.Object          { return u.objs[i-1] }
 func (u *Universe) Triple(i int) *triple.Triple       { return u.triples[i-1] }
-func (u *Universe) Time(rank int) time.Time           { return u.times[rank-1] }
-func (u *Universe) NT() int                           { return len(u.triples) }
+
+// TripleAlt is the same triple as Triple(i) written with other spellings of its time anchors (other zone).
+func (u *Universe) TripleAlt(i int) *triple.Triple { return u.alts[i-1] }
+func (u *Universe) Time(rank int) time.Time        { return u.times[rank-1] }
+func (u *Universe) NT() int                        { return len(u.triples) }
 
 // NodeID returns the abstract index of a real node, 0 if it is not in the universe.
 func (u *Universe) NodeID(n *node.Node) int {
